@@ -198,6 +198,25 @@ example :
 
 /-! ## over-limit and malformed traffic -/
 
+/-- **drop_clears_assembler.** The inbox-full branch ("Dropping newest message"): when an EOF packet
+completes a message and the topic's inbox has no room (or the stream has no inbox), the message is
+dropped WHOLE — nothing is logged, the connection stays open, and the stream's assembler is empty
+again, so the next message on that topic starts from nothing. (`delivery` / `delivery_partial` cover
+histories with such drops: what is delivered is always a subsequence of what was sent.) -/
+theorem drop_clears_assembler (L : Limits) (r : Receiver) (p : Packet) (ho : r.closed = none)
+    (ht : p.topic ≠ L.heartbeat ∧ p.topic < L.invalid) (hfit : ¬ L.maxMsg < (r.asm.get p.topic).length + p.bytes.length)
+    (heof : p.eof = true) (hfull : ¬ (p.topic < L.inboxTopics ∧ (r.inbox.get p.topic).length < L.inboxCap)) :
+    (r.handle L p).asm.get p.topic = [] ∧ (r.handle L p).log = r.log ∧ (r.handle L p).inbox = r.inbox ∧
+    (r.handle L p).closed = none := by
+  have hnv : ¬ p.topic ≥ L.invalid := by omega
+  simp [Receiver.handle, ho, ht.1, hnv, hfit, heof, hfull]
+
+/-- non-vacuity (inbox capacity 1 for the witness): the second message is dropped, the third arrives as itself -/
+example :
+    let L1 : Limits := ⟨2, 6, 1, 6, 99, 6, false, by decide⟩
+    ((Receiver.init.run L1 [⟨0, true, [1]⟩, ⟨0, false, [2, 2]⟩, ⟨0, true, [2]⟩]).drain 0 |>.run L1 [⟨0, true, [3]⟩]).log.get 0
+      = [[1], [3]] := by decide
+
 /-- **overlimit_closes.** A packet that would take a stream's assembler beyond the limit closes the
 connection; nothing is delivered, the partial data is discarded. -/
 theorem overlimit_closes (L : Limits) (r : Receiver) (p : Packet) (ho : r.closed = none)
